@@ -10,9 +10,11 @@ CFG = dict(
          "flush thresholds, header version); either a deterministic driver (committers blocked in Commit/AsyncCommit, "
          "driver calls Sync / AllowCommitUpto / FlushIndexes) or free-running goroutines with SyncFrequency 2ms. The "
          "recorder yields, per log (tx, commit, val_i, aht/{data,tree,commit}, index/*), every Append/SetOffset/Flush/"
-         "Sync, the physical writes each call produced (files read back and diffed), what each call made durable, and "
+         "Sync, the physical writes AND TRUNCATIONS each call produced (files read back and diffed; a file that shrank = "
+         "a rewind below the flushed size, fix 09014a8; removed chunk files), what each call made durable, and "
          "the acknowledgements. FALSIFIER: crash points between storage operations x crash images (durable only / all "
-         "OS writes / one log class ahead or behind / random per-file prefix with torn last write), materialised as real "
+         "OS operations / all writes but no truncation / one log class ahead or behind / random per-file prefix with "
+         "torn last write and truncations applied or not), materialised as real "
          "directories, real store.Open, property checked directly (open succeeds; every acknowledged tx byte-identical "
          "incl. values; gap-free ids; PrevAlh chain; BlRoot = Merkle root of the recovered Alhs; DualProof(acked, "
          "recovered) and (acked, fresh) verify; Get after WaitForIndexingUpto = latest committed value; a fresh commit "
@@ -28,13 +30,18 @@ CFG = dict(
          "Non-trivial: CRun with >= 2 transactions and >= 1 commit; CRec whose recovered history is non-empty; distinct "
          "by full case content.",
     trusted_base=COMMON_TB + [
-        "file-system model: fsync makes all earlier writes of THAT file durable; un-fsynced writes survive as any per-file "
-        "prefix plus a byte-prefix of the next write (torn), independently per file; no reordering beyond that; a created "
-        "chunk file exists with its header (singleapp.Open fsyncs file and directory)",
+        "file-system model: fsync makes all earlier writes AND truncations of THAT file durable; un-fsynced operations "
+        "survive as any per-file prefix plus a byte-prefix of the next write (torn), independently per file; an un-fsynced "
+        "truncation (SetOffset below the flushed size since fix 09014a8) inside that prefix may be on disk or not (model: "
+        "at any offset >= the new size, which also covers 'the later chunk files are gone, the tail of the chunk is not'); "
+        "removal of chunk files is durable when SetOffset returns (multiapp fsyncs the directory); no reordering beyond "
+        "that; in every reachable model state a truncation is the first pending operation of its file; a created chunk "
+        "file exists with its header (singleapp.Open fsyncs file and directory)",
         "harness, rotation workloads: durability of each physical chunk file is observed through cachestat(2) (kernel >= 6.5, "
         "disk file system; falls back to the derived level and says so in the input distribution otherwise); a page "
-        "cleaned by background write-back within the sub-second run would be taken as fsynced; the protocol MODEL keeps "
-        "treating a log as one file: chunk-level durability is falsifier-side only",
+        "cleaned by background write-back within the sub-second run would be taken as fsynced; a TRUNCATION leaves no dirty "
+        "page, so at this level it stays pending until a later write of the same file is seen fsynced (or for good); the "
+        "protocol MODEL keeps treating a log as one file: chunk-level durability is falsifier-side only",
         "harness, other workloads: what is durable is derived from the appendable API contract (Sync = fsync of the current chunk; rotation "
         "fsyncs the chunk it leaves when Synced; a buffer-full auto-sync is treated as a plain write, which only ADDS crash "
         "images); physical writes are observed by reading the files back after every call under one global lock",
@@ -46,11 +53,16 @@ CFG = dict(
         "binary search, last-tx validation, precommitted reload by id/PrevAlh/record check AND value check (fix ccd70f3), "
         "AHT reset to the committed id (fix 2077e08) / up-to-date / re-link), the tree fsynced inside sync() before the "
         "commit entries (fix b260503; model switch c_ahtsync = Tie.C03.repair_applied = true; the tie observes whether "
-        "the tree fsyncs inside sync(), so the switch must agree with the code), ahtree.OpenWith size checks. ABSTRACTED: "
+        "the tree fsyncs inside sync(), so the switch must agree with the code), ahtree.ResetSize = sync + commit-log rewind "
+        "WITHOUT fsync (fix 6a85281; model switch c_ahtreset = Tie.C03.aht_durable_reset = RCut; RSync = proposed repair "
+        "fixes/C03-aht-durable-reset.diff, theorems *_repaired; the correspondence run does not exercise the switch: its "
+        "cases are first incarnations, where ResetSize is a no-op), rewinds as truncations (fix 09014a8; not for "
+        "preallocated files), open-time cut of a partial last entry, ahtree.OpenWith size checks. ABSTRACTED: "
         "tx record = id|prevAlh|len|body|alh with an opaque body carrying one value extent; H arbitrary 32-byte function; "
         "AHT = one leaf log (payload+digest logs) + commit log. NOT "
         "modelled (falsifier only): chunk rotation, embedded values, external commit allowance, index (tbtree) recovery, "
-        "DiscardPrecommittedTxsSince, truncation, compression",
+        "DiscardPrecommittedTxsSince, store truncation (TruncateUptoTx), compression; PreallocFiles only as refutation "
+        "witness + repaired example (model switch c_preallocfix, fixes/C03-prealloc-clog-trim.diff), no general theorem",
         "model guards standing for Go's fixed-width types: tx id < 2^64, record size < 2^32, file offsets < 2^64",
     ],
     assumptions=["fsync/prefix/torn-write semantics of the OS and disk as stated; nothing about SHA-256 is assumed "
